@@ -57,7 +57,6 @@ Theorem check_sound_partial : forall ops,
   sched_ok init ops = true -> C09_check ops (snd (run init ops)) = true.
 Proof. intros ops HS. unfold C09_check. apply (run_inv ops init [] inv_init HS). Qed.
 
-Definition ghost_after (ops : list op) : ghost := fst (grun [] ops (snd (run init ops))).
 
 Theorem reach_inv : forall ops, sched_ok init ops = true -> Inv (fst (run init ops)) (ghost_after ops).
 Proof. intros ops HS. apply (run_inv ops init [] inv_init HS). Qed.
@@ -126,12 +125,8 @@ Theorem check_sound_partial_by : forall ops,
   C09_check ops (snd (run init ops)) = true.
 Proof. intros ops H. apply check_sound_partial. rewrite sched_ok_by. auto. Qed.
 
-Definition works (n : nat) : list op := repeat (Work false) n.
 
 (* (a) SetMetadata between delete(f.blobs,k) and UnbanEviction(k): the update is lost *)
-Definition wit_unban_window : list op :=
-  [Create 1 [7] PMem; MarkComplete 1] ++ works 9 ++
-  [SetMd 1 1 [9]; Work false; EvictMem 1; GetMd 1 1 SAny].
 
 Theorem unban_window_refuted :
   sched_by (fun s o => h2 s o && h3 s o) init wit_unban_window = true /\
@@ -142,9 +137,6 @@ Proof. vm_compute. auto. Qed.
 
 (* (b) Delete + Create + MarkComplete of k while the flush of the earlier incarnation is in
    flight: the stale flush unmarks and unbans the NEW blob, which is then lost *)
-Definition wit_recreate : list op :=
-  [Create 1 [7] PMem; MarkComplete 1] ++ works 8 ++
-  [Delete 1; Create 1 [8; 8] PMem; MarkComplete 1; Work false; Work false; EvictMem 1; Open 1 SAny].
 
 Theorem recreate_refuted :
   sched_by (fun s o => h1 s o && h3 s o) init wit_recreate = true /\
@@ -155,9 +147,6 @@ Proof. vm_compute. auto. Qed.
 
 (* (c) Delete of k between the worker's memOpen(k) and disk.Create(k): the entry created by the
    aborted flush is visible (and blocks Create) until the worker's abort check *)
-Definition wit_resurface : list op :=
-  [Create 1 [7] PMem; MarkComplete 1; Work false; Work false; Delete 1; Work false;
-   Has 1 SAny; Create 1 [6] PMem].
 
 Theorem resurface_refuted :
   sched_by (fun s o => h1 s o) init wit_resurface = true /\
@@ -168,15 +157,10 @@ Proof. vm_compute. auto. Qed.
 
 (* non-vacuity: an admissible schedule with metadata updates in the middle of a flush, a
    metadata-only flush, eviction from memory and reads served from disk *)
-Definition wit_ok : list op :=
-  [Create 1 [7; 7] PMem; SetMd 1 1 [1]; MarkComplete 1] ++ works 6 ++
-  [SetMd 1 2 [2]] ++ works 3 ++ [SetMd 1 1 [3]] ++ works 12 ++
-  [DelMd 1 2] ++ works 8 ++ [EvictMem 1; Open 1 SAny; GetMd 1 1 SAny; GetMd 1 2 SAny;
-   Delete 1; Has 1 SAny; Create 1 [5] PDisk; MarkComplete 1; Open 1 SComplete].
 
 Lemma nonvacuous :
   sched_ok init wit_ok = true /\
   C09_check wit_ok (snd (run init wit_ok)) = true /\
-  skipn 36 (snd (run init wit_ok)) =
+  skipn 35 (snd (run init wit_ok)) =
     [OOk; OBytes [7; 7]; OMd (Some [3]); OMd None; OOk; OHas false false; OOk; OOk; OBytes [5]].
 Proof. vm_compute. auto. Qed.
